@@ -20,7 +20,7 @@ REQUIRED_COUNTERS = ["argument_shadow_checks", "stack_vs_frame_groups", "shift_g
 
 
 def plan(tier, seed):
-    return [{"shard": i, "reps": 30 if tier == "quick" else 900} for i in range(16)]
+    return [{"shard": i, "reps": 30 if tier == "quick" else 15000} for i in range(16)]
 
 
 def content(rng, ny, nx, margin, dtype, compact=False):
